@@ -87,6 +87,8 @@ pub struct Pipe {
     pub read_fault: Option<(u64, io::ErrorKind)>,
     /// faults keep firing on every later call of the same direction (a transport that stays broken)
     pub fault_sticky: bool,
+    /// every read returns as much as is available and fits (no random short reads)
+    pub whole_reads: bool,
     /// EOF injected once the server has read this many bytes
     pub eof_at: Option<usize>,
     // server -> client
@@ -130,6 +132,7 @@ impl Pipe {
             read_calls: 0,
             read_fault: None,
             fault_sticky: false,
+            whole_reads: false,
             eof_at: None,
             outbox: Vec::new(),
             write_waker: None,
@@ -266,7 +269,7 @@ impl AsyncRead for Reader {
             return Poll::Pending;
         }
         let cap = buf.len().min(avail).min(p.beh.read_max.max(1));
-        let n = if cap > 1 && p.rng.chance(1, 2) { p.rng.range(1, cap) } else { cap };
+        let n = if !p.whole_reads && cap > 1 && p.rng.chance(1, 2) { p.rng.range(1, cap) } else { cap };
         for b in buf.iter_mut().take(n) {
             *b = p.inbox.pop_front().expect("available");
         }
